@@ -14,6 +14,8 @@ def facts : Facts :=
     mainOwnOnly := true,
     methodReplaces := true,
     depsPendingOnly := true,
+    funcRetry := true,
+    firstErrorDecides := true,
     iotaResetAtEnd := true }
 
 /-- the calls each entry point makes to the other functions of the pipeline, in source order -/
@@ -55,6 +57,11 @@ def shapes : List (String × String) :=
    ("parse.decl", "src=\"packagemain;\"+src"),
    ("parse.wrap", "inFunc=true;src=wrapInMain(src)"),
    ("parse.body", "{returnf.Decls[0].(*ast.FuncDecl).Body,nil}"),
+   -- a text that starts with `func` and is not a file is parsed again wrapped in main, unless the FIRST error of
+   -- the first attempt is an incomplete input (seed round 4: statement texts that start with a function literal)
+   ("parse.retry", "{if!inc||tok!=token.FUNC{returnnil,err}ifignoreError(err,src){returnnil,err}initialError:=errsrc:=wrapInMain(strings.TrimPrefix(src,\"packagemain;\"))f,err=parser.ParseFile(interp.fset,name,src,mode)iferr!=nil{returnnil,initialError}inFunc=true}"),
+   ("ignoreError", "{se,ok:=err.(scanner.ErrorList)if!ok{returnfalse}iflen(se)==0{returnfalse}returnignoreScannerError(se[0],src)}"),
+   ("ignoreScannerError", "{msg:=e.Msgifstrings.HasSuffix(msg,\"found'EOF'\"){returntrue}ifmsg==\"rawstringliteralnotterminated\"{returntrue}ifstrings.HasPrefix(msg,\"expectedoperand,found'}'\")&&!strings.HasSuffix(s,\"}\"){returntrue}returnfalse}"),
    ("wrapInMain", "returnfmt.Sprintf(\"packagemain;funcmain(){%s\\n}\",src)"),
    ("CompileAST.main", "ifm:=gs.sym[mainID];pkgName==mainID&&m!=nil{fora:=m.node;a!=nil;a=a.anc{ifa==root{initNodes=append(initNodes,m.node)break}}}"),
    ("addMethod.loop", "fori,m:=ranget.method{ifm==n{return}ifm.ident==n.ident{t.method[i]=nreturn}}"),
@@ -70,14 +77,17 @@ def shapes : List (String × String) :=
 def sourceHashes : List (String × String) :=
   [-- 113505f (round 5, F07-18): a text starting with `func` which is not a declaration is wrapped like any other
    -- statement text AND now marked inFunc (before, the wrapper `func main` itself was declared); the decl/wrap/body
-   -- shapes above are unchanged, the statement texts of the item language never start with `func`
+   -- shapes above are unchanged; since seed round 4 the item language has statements that start with `func`
+   -- (`SStmt.lit`), the second attempt is the fact `funcRetry` and ignoreError / ignoreScannerError are tied
    ("Interpreter.parse", "89cfb325e0b83139"),
    ("wrapInMain", "ad11654064a2b3f2"),
-   ("Interpreter.firstToken", "cee33d39fe709cc4")] ++
+   ("Interpreter.firstToken", "cee33d39fe709cc4"),
+   ("ignoreError", "76a2a2da98c1e8ea")] ++
   [("Interpreter.resizeFrame", "379b95ed0ad00014"),
    ("Interpreter.eval", "d4431e9d16dcf975"),
    ("Interpreter.Eval", "13934d751a29b5c0"),
-   ("Interpreter.EvalPath", "3bba971d12579724")] ++
+   ("Interpreter.EvalPath", "3bba971d12579724"),
+   ("ignoreScannerError", "55d0bf6e75f3d025")] ++
   [("Interpreter.Compile", "0af2ee423e207830"),
    ("Interpreter.compileSrc", "9427d3d379f61f48"),
    ("Interpreter.CompileAST", "0472806e9941054a"),
